@@ -195,8 +195,12 @@ def main(argv=None):
     samples = []
     viol_by_sig = {}
     slowest = (0.0, None)
+    nt_extra = 0
     for desc, res in zip(descs, results):
-        if res.get("nontrivial"):
+        if "nt_count" in res:
+            # a case that is a block of distinct elementary inputs reports how many of them are non-trivial
+            nt_extra += int(res["nt_count"])
+        elif res.get("nontrivial"):
             dkeys_nontrivial.add(res.get("dkey") or canon(desc))
         oc = res.get("outcome")
         if oc is not None:
@@ -243,7 +247,7 @@ def main(argv=None):
     level = mod.LEVEL
     coverage = {
         "evaluations": evaluations,
-        "distinct_nontrivial": len(dkeys_nontrivial),
+        "distinct_nontrivial": len(dkeys_nontrivial) + nt_extra,
         "rule": mod.RULE,
         "samples": samples,
         "exhaustive": (not capped) and (not args.only) and bool(getattr(mod, "EXHAUSTIVE", True)),
@@ -280,7 +284,7 @@ def main(argv=None):
         with open(os.path.join(EVIDENCE_DIR, cid + ".json"), "w") as f:
             json.dump(evidence, f, indent=1, default=str)
 
-    print(f"[{cid}] tier={tier} seed={seed} cases={evaluations} nontrivial={len(dkeys_nontrivial)} "
+    print(f"[{cid}] tier={tier} seed={seed} cases={evaluations} nontrivial={len(dkeys_nontrivial) + nt_extra} "
           f"outcomes={len(outcomes)} rejected={rejected} skipped={skipped} states={states} transitions={transitions} "
           f"wall={wall:.1f}s slowest={slowest[0]:.1f}s")
     if counters:
